@@ -218,13 +218,20 @@ theorem view_eq_derive (c : Ctl) (h : String) (hinv : Inv c) (hwf : WF c)
             rw [hc] at hfr
             simp only [Option.bind] at hfr
             exact ⟨(sl.name, eps), by simpa [Option.getD] using mem_of_alookup per sl.name eps hfr, hee⟩
-    have hdL : ∀ e1 ∈ ((alookup h c.cache).getD []).flatMap (·.2), ∀ e2 ∈ ((alookup h c.cache).getD []).flatMap (·.2),
-        epKey e1 = epKey e2 → e1 = e2 :=
-      fun e1 h1 e2 h2 hk => hdist sv hf e1 ((hM e1).mp h1) e2 ((hM e2).mp h2) hk
+    have hS : ∀ e, e ∈ (sortKeys ((alookup h c.cache).getD [])).flatMap (·.2) ↔
+        e ∈ ((alookup h c.cache).getD []).flatMap (·.2) := by
+      intro e
+      rw [List.mem_flatMap, List.mem_flatMap]
+      constructor
+      · intro hx; obtain ⟨x, hx1, hx2⟩ := hx; exact ⟨x, (mem_sortKeys _ _).mp hx1, hx2⟩
+      · intro hx; obtain ⟨x, hx1, hx2⟩ := hx; exact ⟨x, (mem_sortKeys _ _).mpr hx1, hx2⟩
+    have hdL : ∀ e1 ∈ (sortKeys ((alookup h c.cache).getD [])).flatMap (·.2),
+        ∀ e2 ∈ (sortKeys ((alookup h c.cache).getD [])).flatMap (·.2), epKey e1 = epKey e2 → e1 = e2 :=
+      fun e1 h1 e2 h2 hk => hdist sv hf e1 ((hM e1).mp ((hS e1).mp h1)) e2 ((hM e2).mp ((hS e2).mp h2)) hk
     have hget : ∀ e, e ∈ cacheGet c.cache h ↔ e ∈ dedupEps [] (deriveAll c h sv) := by
       intro e
       unfold cacheGet
-      rw [mem_dedupEps _ [] e hdL, mem_dedupEps _ [] e (hdist sv hf), hM e]
+      rw [mem_dedupEps _ [] e hdL, mem_dedupEps _ [] e (hdist sv hf), hS e, hM e]
     -- the index holds `get`
     have hidx := hinv.index h
     unfold IdxOK at hidx
